@@ -22,6 +22,13 @@ pub struct FileCase {
     pub class: String,
 }
 
+/// Sets the modification time explicitly after the last write, so that the inode change time and the
+/// modification time differ (also below the second), as they do after a chmod, rename or utimes.
+fn set_mtime(p: &std::path::Path, size: u64) {
+    let f = std::fs::OpenOptions::new().write(true).open(p).unwrap();
+    f.set_modified(std::time::SystemTime::UNIX_EPOCH + std::time::Duration::new(1_600_000_000 + size % 1000, 123_456_789)).unwrap();
+}
+
 fn write_file(p: &std::path::Path, size: u64) {
     let mut f = std::io::BufWriter::new(std::fs::File::create(p).unwrap());
     let mut off = 0u64;
@@ -57,12 +64,16 @@ pub fn run(rt: &tokio::runtime::Runtime, dir: &std::path::Path, c: &FileCase, ch
             let f = std::fs::OpenOptions::new().write(true).open(&path).unwrap();
             f.set_len(c.size).unwrap();
             drop(f);
+            set_mtime(&path, c.size);
             let f = std::fs::File::open(&path).unwrap();
             let m = f.metadata().unwrap();
             (f, m)
         }
         _ => {
             write_file(&path, c.size);
+            if (c.size + c.a + c.e) % 2 == 0 {
+                set_mtime(&path, c.size);
+            }
             let f = std::fs::File::open(&path).unwrap();
             let m = f.metadata().unwrap();
             (f, m)
